@@ -266,7 +266,7 @@ def durations(dt, tier):
 
 def timed(tier):
     """a (timed, D) --flush--> b ; optional extra ordinary outflow a->c ; inflow c->a, b->a ; variants with a duration group"""
-    for struct in ("single", "group", "group_junction", "group_junction2", "group_resjunction", "two_pops", "two_groups_longer", "two_groups_shorter", "two_groups_equal"):
+    for struct in ("single", "group", "group_junction", "group_junction2", "group_resjunction", "two_pops", "three_pops", "two_groups_longer", "two_groups_shorter", "two_groups_equal"):
         for dt in DTS[tier][:3] if tier == "quick" else [1.0, 0.25, 1 / 12, 0.1, 0.3, 1 / 52]:
             for lab, D in durations(dt, tier):
                 for extra in (None, 0.3, "over"):
@@ -313,6 +313,13 @@ def timed(tier):
                             spec["pars"][0]["val"] = {"pa": D, "pb": 2 * D if D >= dt else 3 * dt}
                             spec["links"].append(["a", "b", "dur"])
                             spec["transfers"] = [dict(name="mig", units="rate", pairs={"pa>pb": 0.3, "pb>pa": 0.2})]
+                        elif struct == "three_pops":
+                            # the same timed parameter with three different values; in one step the population with the shortest duration
+                            # receives people from BOTH longer-lived populations (each inflow carries people older than its maximum stay)
+                            spec["pops"] = ["pa", "pb", "pc"]
+                            spec["pars"][0]["val"] = {"pa": 4 * D if D >= dt else 5 * dt, "pb": 2 * D if D >= dt else 3 * dt, "pc": D}
+                            spec["links"].append(["a", "b", "dur"])
+                            spec["transfers"] = [dict(name="mig", units="rate", pairs={"pa>pc": 0.3, "pb>pc": 0.2, "pc>pa": 0.1})]
                         comps = [c["name"] for c in spec["comps"] if c["kind"] == "ord"]
                         spec["characs"].append(dict(name="alive", comps=comps))
                         spec["tag"] = "timed"
@@ -342,6 +349,9 @@ def prog_block(target_par, pops, comps, start, kind="one"):
     return dict(progs=progs, covouts=covs, instr=dict(start=start))
 
 
+AGGS = ("SRC_POP_AVG", "SRC_POP_SUM", "TGT_POP_AVG", "TGT_POP_SUM")
+
+
 def pops(tier):
     for dt in DTS[tier][:3] if tier == "quick" else [1.0, 0.25, 1 / 12, 0.3, 0.5]:
         for tunits, tval in (("rate", 0.1), ("number", 7.0), ("duration", 4.0), ("rate", 5 / dt), ("number", 1e4), ("duration", dt / 4)):
@@ -369,6 +379,25 @@ def pops(tier):
                             spec["progs"] = prog_block("inf", ["pa", "pb"], ["a"], START + (1 if dt <= 1 else 2 * dt), prog)
                         spec["tag"] = "pops"
                         yield spec
+        # two aggregation parameters evaluated one after the other on the SAME interaction (a normalising 3-argument average first):
+        # the second must still see the weights as entered (they do not sum to 1)
+        for first in ("SRC_POP_AVG", "TGT_POP_AVG"):
+            for second in AGGS:
+                for wvar in (None, "alive"):
+                    et = edge_types(dt, tier, reduced=True)[0]
+                    spec = base_spec(["a", "b"], dt, init=dict(a={"pa": 100.0, "pb": 40.0}, b={"pa": 10.0, "pb": 0.0}))
+                    spec["pops"] = ["pa", "pb"]
+                    spec["transfers"] = [dict(name="mig", units="rate", pairs={"pa>pb": 0.1})]
+                    add_edge(spec, "b", "a", et, name="rec")
+                    spec["characs"].append(dict(name="alive", comps=["a", "b"]))
+                    spec["characs"].append(dict(name="prev", comps=["b"], denom="alive"))
+                    spec["interactions"] = [dict(name="mix", pairs={"pa>pa": 1.0, "pa>pb": 0.5, "pb>pa": 0.2, "pb>pb": 2.0})]
+                    spec["pars"].append(dict(name="foi", fmt="probability", fn=f"{first}(prev, mix)", min=0, max=None))
+                    spec["pars"].append(dict(name="press", fmt="probability", fn=f"{second}(prev, mix, {wvar})" if wvar else f"{second}(prev, mix)", min=0, max=None))
+                    spec["pars"].append(dict(name="inf", fmt="probability", fn="foi*0.5+press*0.1+0.01"))
+                    spec["links"].append(["a", "b", "inf"])
+                    spec["tag"] = "pops"
+                    yield spec
 
 
 # ---------------------------------------------------------------- combined
